@@ -242,6 +242,13 @@ after {:?}
                         return fail(srv, format!("c09|{}:links", short), format!("links after {:?}\nexpected    {:?}\n{}", links_after, expected_links, head(&after)));
                     }
                 }
+                // inside a block quote the quote has a heading tree of its own: the conservation
+                // laws above hold there as everywhere, the structural clauses below are stated
+                // (and modelled) for the note's own sections
+                if actions::line_in_quote(&f, off.line as usize) {
+                    stats.class("in-quote:conservation-only");
+                    continue;
+                }
                 let before_path_of = |line: usize| -> Option<(Vec<String>, String, u8)> {
                     // heading at `line`: (path of ancestors, text, level)
                     let hs = actions::headings(&f);
